@@ -61,8 +61,8 @@ CLIP_BOTH = T((['VALID(v)', '(v < lower)'], 'lower', []),
               (['VALID(v)', '(lower < v)', '(upper < v)'], 'upper', []),   # `<=` folded to `<` (equal at the bound)
               (['VALID(v)', '(lower < v)', '(v < upper)'], 'v', []),
               (['!VALID(v)'], 'v', []))
-CLIP_LO = T((['VALID(v)', '(v < lower)'], 'lower', []), (['!((v < lower) && VALID(v))'], 'v', []))
-CLIP_HI = T((['VALID(v)', '(upper < v)'], 'upper', []), (['!((upper < v) && VALID(v))'], 'v', []))
+CLIP_LO = T((['VALID(v)', '(v < lower)'], 'lower', []), (['VALID(v)', '(lower < v)'], 'v', []), (['!VALID(v)'], 'v', []))
+CLIP_HI = T((['VALID(v)', '(upper < v)'], 'upper', []), (['VALID(v)', '(v < upper)'], 'v', []), (['!VALID(v)'], 'v', []))
 
 
 def check(run):
